@@ -42,13 +42,60 @@ static unsigned g0_unicode(int nat, int code) {
   return (unsigned)code;
 }
 
+// Level 1.5 (EN 300 706 12.3, Table 37 Latin G2 set): the codes whose Unicode equivalent is beyond doubt; 0 = not compared
+static unsigned g2_safe(int code) {
+  static const struct { int c; unsigned u; } t[] = {
+    {0x21,0x00A1},{0x22,0x00A2},{0x23,0x00A3},{0x25,0x00A5},{0x27,0x00A7},{0x2B,0x00AB},{0x2C,0x2190},{0x2D,0x2191},{0x2E,0x2192},{0x2F,0x2193},
+    {0x30,0x00B0},{0x31,0x00B1},{0x32,0x00B2},{0x33,0x00B3},{0x34,0x00D7},{0x35,0x00B5},{0x36,0x00B6},{0x37,0x00B7},{0x38,0x00F7},{0x3B,0x00BB},
+    {0x3C,0x00BC},{0x3D,0x00BD},{0x3E,0x00BE},{0x3F,0x00BF},{0x52,0x00AE},{0x53,0x00A9},{0x54,0x2122},{0x57,0x2030},{0x5C,0x215B},{0x5D,0x215C},
+    {0x5E,0x215D},{0x5F,0x215E},{0x61,0x00C6},{0x64,0x0126},{0x66,0x0132},{0x67,0x013F},{0x68,0x0141},{0x69,0x00D8},{0x6A,0x0152},{0x6C,0x00DE},
+    {0x6D,0x0166},{0x6E,0x014A},{0x6F,0x0149},{0x70,0x0138},{0x71,0x00E6},{0x72,0x0111},{0x73,0x00F0},{0x74,0x0127},{0x75,0x0131},{0x76,0x0133},
+    {0x77,0x0140},{0x78,0x0142},{0x79,0x00F8},{0x7A,0x0153},{0x7B,0x00DF},{0x7C,0x00FE},{0x7D,0x0167},{0x7E,0x014B}};
+  for (auto& e : t) if (e.c == code) return e.u;
+  return 0;
+}
+// G0 character with diacritical mark (X/26 column triplet modes 0x10 + accent, accent = the G2 column 4 mark): the
+// compositions every Latin-1 / Latin Extended-A user knows; 0 = not compared.  Accent 0 = the plain G0 character of
+// the Latin set without national option ('*' 0x2A stands for '@' at this mode).
+static unsigned compose_safe(int accent, int base) {
+  auto in = [&](const char* set) { return base < 0x80 && strchr(set, base) != nullptr; };
+  auto lat1 = [&](const char* set, const unsigned* u) { const char* q = strchr(set, base); return u[q - set]; };
+  if (accent == 0) {
+    if (base == 0x2A) return 0x40;
+    if ((base >= '0' && base <= '9') || (base >= 'A' && base <= 'Z') || (base >= 'a' && base <= 'z')) return (unsigned)base;
+    return 0;
+  }
+  static const unsigned grave[] = {0xC0,0xC8,0xCC,0xD2,0xD9,0xE0,0xE8,0xEC,0xF2,0xF9};
+  static const unsigned acute[] = {0xC1,0xC9,0xCD,0xD3,0xDA,0xDD,0xE1,0xE9,0xED,0xF3,0xFA,0xFD};
+  static const unsigned circ[] = {0xC2,0xCA,0xCE,0xD4,0xDB,0xE2,0xEA,0xEE,0xF4,0xFB};
+  static const unsigned tilde[] = {0xC3,0xD1,0xD5,0xE3,0xF1,0xF5};
+  static const unsigned diaer[] = {0xC4,0xCB,0xCF,0xD6,0xDC,0xE4,0xEB,0xEF,0xF6,0xFC,0xFF};
+  static const unsigned caron[] = {0x010C,0x0160,0x017D,0x010D,0x0161,0x017E};
+  switch (accent) {
+    case 1: if (in("AEIOUaeiou")) return lat1("AEIOUaeiou", grave); break;
+    case 2: if (in("AEIOUYaeiouy")) return lat1("AEIOUYaeiouy", acute); break;
+    case 3: if (in("AEIOUaeiou")) return lat1("AEIOUaeiou", circ); break;
+    case 4: if (in("ANOano")) return lat1("ANOano", tilde); break;
+    case 8: if (in("AEIOUaeiouy")) return lat1("AEIOUaeiouy", diaer); break;
+    case 10: if (base == 'A') return 0xC5; if (base == 'a') return 0xE5; break;
+    case 11: if (base == 'C') return 0xC7; if (base == 'c') return 0xE7; break;
+    case 15: if (in("CSZcsz")) return lat1("CSZcsz", caron); break;
+  }
+  return 0;
+}
+
 static int to_bcd(int v) { return ((v / 10) % 10) * 16 + v % 10; }
 
-struct StoredPage { ttx::PageImage img; bool have_flof = false; bool links_valid = false; ttx::Link links[6]; int nat = 0; bool tainted = false; int subno = 0; };
+// enh: Level 1.5 expectation per position row*40+column addressed by an X/26 column triplet of the last transmission:
+//   > 0 the character that must be shown there, 0 = a character replaced by one the model does not predict (not
+//   compared), -1 = addressed by a triplet which a Level 1.5 decoder ignores (the Level 1 cell must show)
+struct StoredPage { ttx::PageImage img; bool have_flof = false; bool links_valid = false; ttx::Link links[6]; int nat = 0; bool tainted = false; int subno = 0;
+                    std::map<int, long> enh; int x26_mask = 0; bool l15_checkable = true; };
 
 struct OpenPage {
   bool open = false; int pgno = 0, subno = 0, nat = 0; bool erase = false; uint8_t text[32];
   std::map<int, std::vector<uint8_t>> rows; bool x27 = false; int lc = 0; ttx::Link links[6]; int events = 0; bool tainted = false;
+  std::map<int, long> enh; int x26_mask = 0;
 };
 
 struct Emitted { ttx::Packet pk; int src; };
@@ -202,7 +249,7 @@ struct C02 : World, TtxWorldBase {
       Op o; o.task = (int)r.below((uint64_t)nmag); o.kind = "page";
       int pg = car[o.task][r.below(1 + r.below(4))];
       int sub = r.chance(1, 2) ? 0 : 1 + (int)r.below(r.chance(1, 4) ? 79 : 3);
-      int flags = (int)r.below(16);  // bit0 X/27/0, bit1 link control "row 24", bit2 send row 24, bit3 rows in random order
+      int flags = (int)r.below(32);  // bit0 X/27/0, bit1 link control "row 24", bit2 send row 24, bit3 rows in random order, bit4 X/26 enhancement packets (Level 1.5)
       o.a = {pg, sub, (int64_t)r.below(8), r.chance(1, 3) ? 1 : 0, (int64_t)r.below(1u << 30), flags, (int64_t)r.below(7)};
       p.ops.push_back(o);
     }
@@ -213,6 +260,7 @@ struct C02 : World, TtxWorldBase {
   std::map<int, StoredPage> store;  // key pgno<<8 | subkey
   OpenPage open_[8];
   int checked_pages = 0, interleaved = 0, updates = 0, fillers = 0, fillers_unused = 0, fillers_closing = 0, fillers_serial_foreign = 0, hold_rows = 0, hold_rows_after_mosaic = 0;
+  int x26_sent = 0, l15_pages = 0, l15_pages_enh = 0, l15_pages_uncheckable = 0, l15_cells_checked = 0, l15_cells_unpredicted = 0, l15_cells_ignored_triplet = 0, l15_rows_skipped = 0;
   int last_mag = -1;
 
   void on_event(int pgno, int subno) override {
@@ -242,6 +290,13 @@ struct C02 : World, TtxWorldBase {
     for (auto& kv : o.rows) { memcpy(sp.img.rows[kv.first], kv.second.data(), 40); sp.img.have_row[kv.first] = true; }
     if (o.x27) { sp.have_flof = (o.lc >> 3) & 1; sp.links_valid = true; for (int i = 0; i < 6; i++) sp.links[i] = o.links[i]; }
     sp.nat = o.nat;
+    // Level 1.5: what becomes of X/26 enhancement data when a later transmission of the page carries none, or fewer
+    // packets, the statement does not say; the Level 1.5 view is compared only when the designation codes of this
+    // transmission cover every one ever sent for this page
+    { int ever = store.count(key) ? store[key].x26_mask : 0;
+      sp.l15_checkable = (ever & ~o.x26_mask) == 0;
+      sp.x26_mask = ever | o.x26_mask;
+      sp.enh = o.enh; }
     sp.tainted = o.tainted || (had && store[key].tainted);
     store[key] = sp;
     if (ctx->failed || sp.tainted) return;
@@ -267,22 +322,57 @@ struct C02 : World, TtxWorldBase {
         for (int col = 0; col < 40; col++) { char t[8]; snprintf(t, sizeof t, "%02x ", sp.img.rows[row][col]); a += t; snprintf(t, sizeof t, "%x", pg.text[row * 41 + col].opacity); b += t; }
         fprintf(stderr, "    row %2d: %s | opacity %s\n", row, a.c_str(), b.c_str());
       }
-    for (int row = 0; row < 25; row++) {
+    // lvl15: compare a Level 1.5 fetch; the cells X/26 column triplets address show the enhancement character, every
+    // other cell and every attribute is the Level 1 one.  Rows with double height / width / size in them or in the
+    // row above are left out at Level 1.5 when they are addressed (an enhancement character inside or below enlarged
+    // characters is beyond the statement).
+    auto compare = [&](const vbi_page& pg, bool lvl15) -> bool {
+     const char* lv = lvl15 ? "level 1.5 " : "";
+     for (int row = 0; row < 25; row++) {
       if (row == 24 && navbar) continue;  // replaced by the FLOF navigation bar
+      if (lvl15) {
+        bool addressed = false, sized = false;
+        for (auto& kv : sp.enh) if (kv.first / 40 == row) addressed = true;
+        for (int col = 0; col < 40; col++) { int a = sp.img.rows[row][col] & 0x7F; if (a >= 0x0D && a <= 0x0F) sized = true; if (row > 1) { int b = sp.img.rows[row - 1][col] & 0x7F; if (b == 0x0D || b == 0x0F) sized = true; } }
+        if (addressed && sized) { l15_rows_skipped++; continue; }
+      }
       for (int col = (row == 0 ? 8 : 0); col < 40; col++) {
         const ttx::Cell& e = grid[row][col];
         const vbi_char& a = pg.text[row * 41 + col];
         unsigned eu = e.mosaic >= 0 ? (unsigned)(0xEE00 + e.mosaic - (e.separated ? 0x20 : 0)) : g0_unicode(sp.nat, e.code);
         bool uni_ok = a.unicode == eu;
         if (!uni_ok && e.held_uncertain && (a.unicode == 0xEE20 || a.unicode == 0xEE00 || a.unicode == 0x20 || (a.unicode >= 0xEE00 && a.unicode < 0xEE80))) uni_ok = true;
-        if (!uni_ok) { ctx->fail("oracle:ttx-char", "page %x.%x row %d col %d: fetched U+%04X, transmitted code 0x%02x -> expected U+%04X (national option %d)", o.pgno, o.subno, row, col, a.unicode, e.mosaic >= 0 ? e.mosaic : e.code, eu, sp.nat); return; }
-        if ((int)a.foreground != e.fg || (int)a.background != e.bg) { ctx->fail("oracle:ttx-colour", "page %x.%x row %d col %d: colours fg %d bg %d, expected fg %d bg %d", o.pgno, o.subno, row, col, a.foreground, a.background, e.fg, e.bg); return; }
-        if ((bool)a.flash != e.flash) { ctx->fail("oracle:ttx-flash", "page %x.%x row %d col %d: flash %d expected %d", o.pgno, o.subno, row, col, a.flash, e.flash); return; }
-        if ((bool)a.conceal != e.conceal) { ctx->fail("oracle:ttx-conceal", "page %x.%x row %d col %d: conceal %d expected %d", o.pgno, o.subno, row, col, a.conceal, e.conceal); return; }
-        if ((int)a.size != e.size) { ctx->fail("oracle:ttx-size", "page %x.%x row %d col %d: size %d expected %d", o.pgno, o.subno, row, col, a.size, e.size); return; }
-        if ((a.opacity != VBI_OPAQUE) != e.boxed) { ctx->fail("oracle:ttx-box", "page %x.%x row %d col %d: opacity %d, expected boxed=%d", o.pgno, o.subno, row, col, a.opacity, e.boxed); return; }
+        if (lvl15) {
+          auto it = sp.enh.find(row * 40 + col);
+          if (it != sp.enh.end() && it->second >= 0) {
+            if (it->second == 0) { uni_ok = true; l15_cells_unpredicted++; }
+            else {
+              l15_cells_checked++;
+              if (a.unicode != (unsigned)it->second) { ctx->fail("oracle:ttx-l15-char", "page %x.%x row %d col %d at Level 1.5: fetched U+%04X, the X/26 packet puts U+%04lX there", o.pgno, o.subno, row, col, a.unicode, it->second); return false; }
+              uni_ok = true;
+            }
+          } else if (it != sp.enh.end()) l15_cells_ignored_triplet++;
+        }
+        if (!uni_ok) { ctx->fail(lvl15 ? "oracle:ttx-l15-other" : "oracle:ttx-char", "page %x.%x row %d col %d: %sfetched U+%04X, transmitted code 0x%02x -> expected U+%04X (national option %d)", o.pgno, o.subno, row, col, lv, a.unicode, e.mosaic >= 0 ? e.mosaic : e.code, eu, sp.nat); return false; }
+        if ((int)a.foreground != e.fg || (int)a.background != e.bg) { ctx->fail(lvl15 ? "oracle:ttx-l15-other" : "oracle:ttx-colour", "page %x.%x row %d col %d: %scolours fg %d bg %d, expected fg %d bg %d", o.pgno, o.subno, row, col, lv, a.foreground, a.background, e.fg, e.bg); return false; }
+        if ((bool)a.flash != e.flash) { ctx->fail(lvl15 ? "oracle:ttx-l15-other" : "oracle:ttx-flash", "page %x.%x row %d col %d: %sflash %d expected %d", o.pgno, o.subno, row, col, lv, a.flash, e.flash); return false; }
+        if ((bool)a.conceal != e.conceal) { ctx->fail(lvl15 ? "oracle:ttx-l15-other" : "oracle:ttx-conceal", "page %x.%x row %d col %d: %sconceal %d expected %d", o.pgno, o.subno, row, col, lv, a.conceal, e.conceal); return false; }
+        if ((int)a.size != e.size) { ctx->fail(lvl15 ? "oracle:ttx-l15-other" : "oracle:ttx-size", "page %x.%x row %d col %d: %ssize %d expected %d", o.pgno, o.subno, row, col, lv, a.size, e.size); return false; }
+        if ((a.opacity != VBI_OPAQUE) != e.boxed) { ctx->fail(lvl15 ? "oracle:ttx-l15-other" : "oracle:ttx-box", "page %x.%x row %d col %d: %sopacity %d, expected boxed=%d", o.pgno, o.subno, row, col, lv, a.opacity, e.boxed); return false; }
       }
-    }
+     }
+     return true;
+    };
+    if (!compare(pg, false)) return;
+    if (sp.l15_checkable) {
+      vbi_page p15;
+      budget_begin("vbi_fetch_vt_page", 20000000);
+      { SutScope ss; ok = vbi_fetch_vt_page(dec, &p15, o.pgno, o.subno, VBI_WST_LEVEL_1p5, 25, TRUE); }
+      budget_end();
+      if (!ok) { ctx->fail("oracle:ttx-not-cached", "page %x.%x cannot be fetched at Level 1.5", o.pgno, o.subno); return; }
+      l15_pages++; if (!sp.enh.empty()) l15_pages_enh++;
+      if (!compare(p15, true)) return;
+    } else l15_pages_uncheckable++;
     if (navbar && sp.links_valid) {
       for (int i = 0; i < 4; i++) {
         if (pg.nav_link[i].pgno != sp.links[i].pgno || pg.nav_link[i].subno != (sp.links[i].subno & 0x3F7F)) {
@@ -317,6 +407,7 @@ struct C02 : World, TtxWorldBase {
     store.clear(); events.clear(); frame.clear(); ts = 5000.0;
     for (auto& o : open_) o = OpenPage();
     checked_pages = interleaved = updates = fillers = fillers_unused = fillers_closing = fillers_serial_foreign = hold_rows = hold_rows_after_mosaic = 0; last_mag = -1;
+    x26_sent = l15_pages = l15_pages_enh = l15_pages_uncheckable = l15_cells_checked = l15_cells_unpredicted = l15_cells_ignored_triplet = l15_rows_skipped = 0;
     frame_max = (int)(plan.knob("frame_max", 4) % 17); if (frame_max < 1) frame_max = 1;
     bool serial = plan.knob("serial") & 1;
     Sched sched(c, (uint64_t)plan.knob("sched_seed", (int64_t)plan.seed), (Policy)(plan.knob("policy") % 3), (int)plan.knob("pparam"));
@@ -409,8 +500,56 @@ struct C02 : World, TtxWorldBase {
           bool mosaic_above = false;
           size_t x27_at = (flags & 1) ? r.below(ys.size() + 1) : (size_t)-1;
           OpenPage& o = open_[m];
+          // X/26 packets (Level 1.5 and some Level 2.5 triplets a Level 1.5 decoder must pass over): a legal stream -
+          // rows ascending (row 0 first), columns ascending within a row, each position addressed once, termination
+          // markers behind the last triplet, designation codes 0, 1 in order
+          std::vector<ttx::Triplet> trip; std::map<int, long> enh; size_t x26_at[2] = {(size_t)-1, (size_t)-1}; int x26_packets = 0;
+          if (flags & 16) {
+            Rng rx((uint64_t)op->arg(4), "x26");
+            size_t maxt = rx.chance(1, 3) ? 26 : 13;
+            std::set<int> rs;
+            int nr = 1 + (int)rx.below(4);
+            for (int k = 0; k < nr; k++) rs.insert(ys.empty() || rx.chance(1, 5) ? 1 + (int)rx.below(24) : ys[rx.below(ys.size())]);
+            if (rx.chance(1, 6)) rs.insert(0);
+            for (int row : rs) {
+              if (trip.size() + 2 > maxt) break;
+              if (row == 0) trip.push_back({63, 0x07, 0});                       // address display row 0
+              else trip.push_back({row == 24 ? 40 : 40 + row, 0x04, 0});        // set active position
+              int col = row == 0 ? 8 + (int)rx.below(8) : (int)rx.below(12);
+              int nc = 1 + (int)rx.below(4);
+              for (int k = 0; k < nc && col < 40 && trip.size() < maxt; k++) {
+                long expect;
+                uint64_t kind = rx.below(20);
+                if (kind < 8) { int d = 0x20 + (int)rx.below(0x60); trip.push_back({col, 0x0F, d}); expect = (long)g2_safe(d); }
+                else if (kind < 15) {
+                  static const char letters[] = "AEIOUYaeiouyCSZcszNnRrGgKkLlTtDdWwXxQq019*";
+                  int acc = rx.chance(1, 6) ? 0 : (int)rx.below(16);
+                  int d = rx.chance(5, 6) ? letters[rx.below(sizeof letters - 1)] : 0x20 + (int)rx.below(0x60);
+                  trip.push_back({col, 0x10 + acc, d}); expect = (long)compose_safe(acc, d);
+                } else if (kind < 16) { trip.push_back({col, 0x02, 0x20 + (int)rx.below(0x60)}); expect = 0; }   // G3 character: library-private code point
+                else {
+                  static const int l25[] = {0x00, 0x03, 0x07, 0x09, 0x01, 0x0B, 0x0C, 0x0D, 0x08, 0x0E};
+                  int mode = l25[rx.below(sizeof l25 / sizeof l25[0])];
+                  int d = mode == 0x00 || mode == 0x03 || mode == 0x07 ? (int)rx.below(32) : mode == 0x0D ? (int)rx.below(48) : 0x20 + (int)rx.below(0x60);
+                  trip.push_back({col, mode, d}); expect = -1;
+                }
+                enh[row * 40 + col] = expect;
+                col += 1 + (int)rx.below(10);
+              }
+            }
+            while (trip.size() % 13 != 0 || trip.empty()) trip.push_back({0x3F, 0x1F, 0x7F});   // termination marker
+            x26_packets = (int)(trip.size() / 13);
+            if (c.verbose) for (auto& t : trip) fprintf(stderr, "    x26 triplet addr %2d mode %02x data %02x\n", t.address, t.mode, t.data);
+            x26_at[0] = rx.below(ys.size() + 1);
+            x26_at[1] = x26_at[0] + rx.below(ys.size() + 1 - x26_at[0]);
+          }
           for (size_t i = 0; i <= ys.size(); i++) {
             if (c.failed) return;
+            for (int k = 0; k < x26_packets; k++) if (i == x26_at[k]) {
+              emit(m, ttx::x26(mag, k, trip.data() + 13 * k));
+              o.x26_mask |= 1 << k; o.enh = enh; x26_sent++;
+              sched.yield();
+            }
             if (i == x27_at) {
               ttx::Link L[6];
               for (int k = 0; k < 6; k++) { L[k].pgno = (1 + (int)r.below(8)) * 256 + to_bcd((int)r.below(100)); L[k].subno = r.chance(1, 2) ? 0x3F7F : to_bcd((int)r.below(80)); }
@@ -453,6 +592,14 @@ struct C02 : World, TtxWorldBase {
     c.count("filler_headers_in_unused_magazine", fillers_unused);
     c.count("filler_headers_terminating_a_page", fillers_closing);
     c.count("filler_headers_unused_magazine_serial_other_page_pending", fillers_serial_foreign);
+    c.count("x26_packets_sent", x26_sent);
+    c.count("l15_pages_checked", l15_pages);
+    c.count("l15_pages_with_x26", l15_pages_enh);
+    c.count("l15_pages_uncheckable", l15_pages_uncheckable);
+    c.count("l15_cells_checked", l15_cells_checked);
+    c.count("l15_cells_unpredicted", l15_cells_unpredicted);
+    c.count("l15_cells_level25_triplet_ignored", l15_cells_ignored_triplet);
+    c.count("l15_rows_skipped_enlarged", l15_rows_skipped);
     c.count("rows_hold_before_first_mosaic", hold_rows);
     c.count("rows_hold_before_first_mosaic_below_mosaic_row", hold_rows_after_mosaic);
     c.nontrivial = checked_pages >= 3 && interleaved >= 2;
